@@ -136,9 +136,10 @@ def _correspond(ctx, corr, rng, T, ls):
         "one fault of each kind (NO, framing error, other byte) at each command position; deviating units (does not "
         "advance DTR0, other unlock value, shorter bank, hole, cell read-only in the unit). "
         "non-trivial = distinct (value, outcome class, flags, unit deviation)" % (len(vals), nw))
+    corr.exhaustive["all suites are sampled (every declared value is visited)"] = False
     suite = "write_raw"
     n = nf = 0
-    for key, b, v in vals:
+    for key, b, v in vals * (4 if T else 1):
         vk = key + "." + v.name
         nloc = len(v.locations)
         writable = all(l.type_.name in WRITEABLE for l in v.locations)
